@@ -76,3 +76,39 @@ pub open spec fn weights_ok(ws: Seq<Scalar>, st0: RngSt) -> bool { exists|st_end
 pub open spec fn weight_rng_state0(trs: Seq<Transcript>, statements: Seq<RangeStatement<P>>, proofs: Seq<RangeProof<P>>) -> RngSt {
     trng_state(weight_log(ctx_logs(trs), statements, proofs, proofs.len()), None, null_rng_state())
 }
+// ---- transcript-RNG provenance helpers (C13 / C14)
+pub proof fn lemma_trng_steps(st: RngSt, n: nat)
+    ensures rng_steps::<TranscriptRng>(st, n).key == st.key, rng_steps::<TranscriptRng>(st, n).ctr == st.ctr + n
+    decreases n
+{
+    if n > 0 { lemma_trng_steps(st, (n - 1) as nat); }
+}
+// a first-nonzero draw from a transcript RNG keeps the key and advances the counter: successive draws are different draws
+pub proof fn lemma_rnz_key_preserved(st: RngSt, v: Scalar, st2: RngSt)
+    requires rnz_drawn::<TranscriptRng>(st, v, st2)
+    ensures st2.key == st.key, st2.ctr > st.ctr, exists|c: nat| st.ctr <= c < st2.ctr && v == rng_scalar(RngSt { key: st.key, ctr: c })
+{
+    reveal(rnz_drawn);
+    let n = choose|n: nat| #![trigger rng_steps::<TranscriptRng>(st, n)] v == rng_scalar(rng_steps::<TranscriptRng>(st, n)) && st2 == rng_steps::<TranscriptRng>(st, n + 1);
+    lemma_trng_steps(st, n);
+    lemma_trng_steps(st, n + 1);
+    let c = st.ctr + n;
+    assert(rng_steps::<TranscriptRng>(st, n) == RngSt { key: st.key, ctr: c });
+}
+pub open spec fn rng_keyed(st: RngSt, wb: Option<Seq<u8>>) -> bool { st.key.wit == wit_key(wb) }
+pub proof fn lemma_chain_keyed(ws: Seq<Scalar>, st0: RngSt, st_end: RngSt)
+    requires weights_chain(ws, st0, st_end)
+    ensures st_end.key == st0.key, st_end.ctr >= st0.ctr + ws.len()
+{
+    reveal(weights_chain);
+    let sts = choose|sts: Seq<RngSt>| #![trigger sts.len()] sts.len() == ws.len() + 1 && sts[0] == st0 && sts[ws.len() as int] == st_end
+        && forall|p: int| 0 <= p < ws.len() ==> rnz_drawn::<TranscriptRng>(#[trigger] sts[p], ws[p], sts[p + 1]);
+    lemma_chain_keyed_aux(ws, sts, ws.len());
+}
+proof fn lemma_chain_keyed_aux(ws: Seq<Scalar>, sts: Seq<RngSt>, k: nat)
+    requires sts.len() == ws.len() + 1, k <= ws.len(), forall|p: int| 0 <= p < ws.len() ==> rnz_drawn::<TranscriptRng>(#[trigger] sts[p], ws[p], sts[p + 1])
+    ensures sts[k as int].key == sts[0].key, sts[k as int].ctr >= sts[0].ctr + k
+    decreases k
+{
+    if k > 0 { lemma_chain_keyed_aux(ws, sts, (k - 1) as nat); lemma_rnz_key_preserved(sts[k - 1], ws[k - 1], sts[k as int]); }
+}
